@@ -393,7 +393,8 @@ def exec_case(ctx, seq: List[Dict[str, Any]]) -> None:
             if "application/json" not in accept or "text/event-stream" not in accept:
                 ctx.violation("accept_header", f"POST #{k} Accept={accept!r}", case)
         beh = step["beh"]
-        if not beh.get("exc") and beh.get("status", 200) < 400 and beh.get("session"):
+        # a session header on an intermediate redirect response is consumed by httpx and never visible to the transport
+        if not beh.get("exc") and beh.get("status", 200) < 400 and beh.get("session") and not beh.get("redirect"):
             latest_session = beh["session"]
         got_n = [norm_any(m) for m in got]
         with_id = [g for g in got_n if g[1] != ("null",)]
